@@ -466,6 +466,16 @@ func guardKeys(g *FG, l Loc) []string {
 
 // condKeys: canonical strings for the conjuncts implied by cond==pol.
 func condKeys(info *types.Info, c *Cond, pol bool) []string {
+	if c.Alts != nil {
+		var vals []string
+		for _, a := range c.Alts {
+			vals = append(vals, canonExpr(info, a))
+		}
+		if c.Tag != nil {
+			return []string{canonPath(info, c.Tag) + "∈{" + strings.Join(vals, ",") + "}"}
+		}
+		return []string{"(" + strings.Join(vals, "||") + ")"}
+	}
 	if c.Tag != nil {
 		// switch tag { case v: }
 		if b, ok := info.TypeOf(c.Tag).Underlying().(*types.Basic); ok && b.Info()&types.IsBoolean != 0 {
@@ -474,12 +484,7 @@ func condKeys(info *types.Info, c *Cond, pol bool) []string {
 				return exprKeys(info, c.Tag, val == pol)
 			}
 		}
-		cv := types.ExprString(c.Expr)
-		if v, ok := constInt(info, c.Expr); ok {
-			cv = fmt.Sprint(v)
-		} else if s, ok := constString(info, c.Expr); ok {
-			cv = fmt.Sprintf("%q", s)
-		}
+		cv := canonExpr(info, c.Expr)
 		op := "=="
 		if !pol {
 			op = "!="
@@ -543,10 +548,34 @@ func canonExpr(info *types.Info, e ast.Expr) string {
 		return canonExpr(info, t.X) + t.Op.String() + canonExpr(info, t.Y)
 	case *ast.UnaryExpr:
 		return t.Op.String() + canonExpr(info, t.X)
-	case *ast.SelectorExpr, *ast.Ident, *ast.CallExpr, *ast.StarExpr:
+	case *ast.CallExpr:
+		if r := inlineAccessor(info, t); r != "" {
+			return r
+		}
+		if stringResolver != nil {
+			if s, ok := stringResolver(info, t); ok {
+				return fmt.Sprintf("%q", s)
+			}
+		}
+		return canonPath(info, e)
+	case *ast.SelectorExpr, *ast.Ident, *ast.StarExpr:
 		return canonPath(info, e)
 	}
 	return types.ExprString(e)
+}
+
+// accessorResolver is set by main once the program is loaded; it maps a call of a
+// zero-argument accessor method whose body is `return <expr>` to the canonical form of <expr>.
+var accessorResolver func(info *types.Info, call *ast.CallExpr) string
+
+// stringResolver evaluates a call of a repository string function on constant arguments (hexEncode("RGB")).
+var stringResolver func(info *types.Info, call *ast.CallExpr) (string, bool)
+
+func inlineAccessor(info *types.Info, call *ast.CallExpr) string {
+	if accessorResolver == nil || len(call.Args) != 0 {
+		return ""
+	}
+	return accessorResolver(info, call)
 }
 
 // ExtractEmissions finds every sink call in the given functions.
